@@ -95,18 +95,37 @@ func (p *flowProto) genTrunc(r *rand.Rand, n int, w *bufio.Writer) {
 				body = rndBytes(r, 12*(1+r.Intn(3)))
 				u = cat(be16(400), be16(4+len(body)), body)
 			}
+			if r.Intn(3) == 0 && len(sets) > 0 {
+				// the nasty body: octets that are themselves a well-formed set of this message (a data set of a
+				// known template or a re-announcement), wrapped in an undecodable set header
+				inner := sets[r.Intn(len(sets))]
+				id := 9000 + r.Intn(1000)
+				if r.Intn(2) == 0 {
+					id = p.reserved[r.Intn(len(p.reserved))]
+				}
+				tail := make([]byte, r.Intn(4)) // 0..3 octets after the inner set, still inside the wrapper
+				u = cat(be16(id), be16(4+len(inner)+len(tail)), inner, tail)
+			}
 			m := append([]byte{}, hdr...)
+			uStart := 0
 			for i, s := range sets {
 				if i == pos {
+					uStart = len(m)
 					m = append(m, u...)
 				}
 				m = append(m, s...)
 			}
 			if pos == len(sets) {
+				uStart = len(m)
 				m = append(m, u...)
 			}
 			fmt.Fprintf(w, "%s %s %s\tins\n", p.name, hx(addr), hx(m))
 			emitted++
+			// the perturbed message cut at every offset inside (and just after) the inserted set
+			for k := uStart; k <= uStart+len(u)+6 && k <= len(m); k++ {
+				fmt.Fprintf(w, "%s %s %s\ttrunc\n", p.name, hx(addr), hx(m[:k]))
+				emitted++
+			}
 		}
 		// every truncation offset
 		for k := 0; k <= len(full); k++ {
